@@ -13,6 +13,14 @@ C32  Constant propagation and code removal preserve behaviour.
  R3  dummy-argument removal and call-argument removal agree on positions: both use
      the index in ``routine.arguments``; keyword arguments are matched by
      lower-cased name.
+ R4  constant propagation kills what is redefined (gen/kill discipline of the
+     constants map): in ``ConstantPropagationTransformer.visit_Loop`` the loop
+     variable is removed from the map the body is visited with *before* the body
+     is visited, and from the outer map after the loop; in ``visit_Assignment``
+     every exit that keeps the statement is preceded by an update or an
+     invalidation of the entry of the assigned variable.  Otherwise a value the
+     variable had before (``i = 5; do i = 1, n; a(i) = i``) is substituted for a
+     variable that has since been redefined.
 Not decided: constant propagation arithmetic.
 """
 import ast
@@ -129,9 +137,125 @@ def run(ctx):
                    'the branch kept for a constant condition is not the live one (body for True, else_body for False)'))
     ok = f'{cn} = simplify({cn})' in ast.unparse(vc.node)
     (ctx.judge('R2', 'condition simplified before the test') if ok else ctx.note('condition is not simplified'))
+    run_r4(ctx)
+
+
+CP = 'loki/transformations/constant_propagation.py'
+KILLGEN = ('invalidate_constants_map', 'update_constants_map', '_pop_array_accesses')
+
+
+def _is_kill(st, what):
+    """statement ``st`` removes / overwrites the map entry of the variable expression ``what`` -> the map expression text"""
+    if not isinstance(st, ast.Expr) or not isinstance(st.value, ast.Call):
+        return None
+    c = st.value
+    nm = X.call_name_of(c)
+    if nm in KILLGEN and c.args and ast.unparse(c.args[0]) == what:
+        for a in list(c.args[1:]) + [k.value for k in c.keywords]:
+            return ast.unparse(a)
+    if isinstance(c.func, ast.Attribute) and c.func.attr == 'pop' and c.args and what in ast.unparse(c.args[0]):
+        return ast.unparse(c.func.value)
+    return None
+
+
+def run_r4(ctx):
+    m = ctx.model
+    ctx.rule('R4', 'constants-map gen/kill: loop variable killed in the body map before the body visit and in the outer map after it; '
+                   'every statement-keeping exit of visit_Assignment is preceded by update / invalidate of the assigned variable')
+    T = m.get_class(CP, 'ConstantPropagationTransformer')
+    vl = T.function('visit_Loop')
+    if vl is None:
+        raise AnalysisError('ConstantPropagationTransformer.visit_Loop vanished')
+    par = X.param_name(vl)
+    outer = (X.names_assigned_from(vl.node, "kwargs.get('constants_map'") or [None])[0]
+    if outer is None:
+        raise AnalysisError('visit_Loop: the incoming constants map is not bound to a local')
+    # the block in which the body is visited
+    found = None
+
+    def blocks(stmts):
+        yield stmts
+        for st in stmts:
+            for fld in ('body', 'orelse', 'finalbody'):
+                b = getattr(st, fld, None)
+                if isinstance(b, list) and b and isinstance(b[0], ast.stmt):
+                    yield from blocks(b)
+    for blk in blocks(vl.node.body):
+        for i, st in enumerate(blk):
+            if isinstance(st, (ast.Assign, ast.Expr)) and any(isinstance(c, ast.Call) and X.dotted_attr(c.func) == 'self.visit' and c.args
+                                                              and ast.unparse(c.args[0]) == f'{par}.body' for c in ast.walk(st)):
+                found = (blk, i, st)
+    if found is None:
+        raise AnalysisError('visit_Loop: recursion into the loop body not found')
+    blk, i, st = found
+    inner_is_copy = blk is not vl.node.body      # visited under dict_override with a copy of the map
+    kills_before = [_is_kill(s_, f'{par}.variable') for s_ in blk[:i]]
+    kills_before = [k for k in kills_before if k]
+    where = f'{vl.module.relpath}:{st.lineno}'
+    if inner_is_copy and not kills_before:
+        ctx.violation('R4', 'ConstantPropagationTransformer.visit_Loop:loop-variable-live-in-body', where,
+                      f'the loop body is visited with a copy of the constants map from which the entry of `{par}.variable` has not been '
+                      f'removed: a constant assigned to the loop variable before the loop (`i = 5; do i = 1, n; a(i) = i`) is substituted '
+                      f'for the loop variable inside the body')
+    else:
+        ctx.judge('R4', 'visit_Loop: loop variable killed before the body visit', facts={'kills': kills_before})
+    top = vl.node.body
+    pos = next((k for k, s_ in enumerate(top) if st in list(ast.walk(s_))), None)
+    after = [_is_kill(s_, f'{par}.variable') for s_ in top[pos + 1:]]
+    if outer in [a for a in after if a]:
+        ctx.judge('R4', 'visit_Loop: loop variable killed in the outer map after the loop')
+    else:
+        ctx.violation('R4', 'ConstantPropagationTransformer.visit_Loop:loop-variable-live-after', vl.where,
+                      f'after the loop the entry of `{par}.variable` stays in the constants map `{outer}`: the value the variable had before '
+                      f'the loop is substituted for it after the loop has redefined it')
+    va = T.function('visit_Assignment')
+    if va is None:
+        raise AnalysisError('ConstantPropagationTransformer.visit_Assignment vanished')
+    pa = X.param_name(va)
+    lhsn = set(X.names_assigned_from(va.node, f'{pa}.lhs')) | {f'{pa}.lhs'}
+    n_exit = 0
+
+    def covered(stmts):
+        """does every path through ``stmts`` execute a gen/kill for the assigned variable?"""
+        for s_ in stmts:
+            if any(_is_kill(s_, w) for w in lhsn):
+                return True
+            if isinstance(s_, ast.If) and s_.orelse and covered(s_.body) and covered(s_.orelse):
+                return True
+        return False
+
+    def walk(stmts, prefix_cov):
+        nonlocal n_exit
+        for k, s_ in enumerate(stmts):
+            cov = prefix_cov or covered(stmts[:k])
+            if isinstance(s_, ast.Return) and s_.value is not None and '_rebuild' in ast.unparse(s_.value):
+                n_exit += 1
+                inst = f'visit_Assignment:exit@{ast.unparse(s_.value)[:40]}'
+                if cov:
+                    ctx.judge('R4', inst)
+                else:
+                    ctx.violation('R4', f'ConstantPropagationTransformer.visit_Assignment:exit-without-kill', f'{va.module.relpath}:{s_.lineno}',
+                                  f'`{ast.unparse(s_)}` is reached on a path that neither updates nor invalidates the constants-map entry of '
+                                  f'the assigned variable: a later read is replaced by the value the variable had before this assignment')
+            elif isinstance(s_, ast.If):
+                walk(s_.body, cov)
+                walk(s_.orelse, cov)
+    walk(va.node.body, False)
+    ctx.floor('R4', 'statement-keeping exits of visit_Assignment', n_exit, 2)
 
 
 MUTANTS = [
+    Mutant('loop-variable-not-killed', CP, "            kwargs['constants_map'].pop((o.variable.basename, ()), None)\n", "", expect=('R4', 'loop-variable-live-in-body')),
+    Mutant('loop-variable-killed-after-body', CP,
+           "            kwargs['constants_map'].pop((o.variable.basename, ()), None)\n            new_body = self.visit(o.body, **kwargs)\n",
+           "            new_body = self.visit(o.body, **kwargs)\n            kwargs['constants_map'].pop((o.variable.basename, ()), None)\n",
+           expect=('R4', 'loop-variable-live-in-body')),
+    Mutant('loop-variable-live-after', CP, "        invalidate_constants_map(o.variable, constants_map)\n\n        return o._rebuild(bounds=new_bounds", "        return o._rebuild(bounds=new_bounds",
+           expect=('R4', 'loop-variable-live-after')),
+    Mutant('assignment-no-invalidate', CP, "        else:\n            invalidate_constants_map(new_lhs, constants_map)\n\n        return o._rebuild(lhs=new_lhs, rhs=new_rhs)",
+           "\n        return o._rebuild(lhs=new_lhs, rhs=new_rhs)", expect=('R4', 'exit-without-kill')),
+    Mutant('neutral-kill-via-helper', CP, "            kwargs['constants_map'].pop((o.variable.basename, ()), None)\n",
+           "            invalidate_constants_map(o.variable, kwargs['constants_map'])\n", expect=None),
     Mutant('dead-branch-swapped', RC, "        if condition == 'True':\n            return body\n\n        if condition == 'False':\n            return else_body",
            "        if condition == 'True':\n            return else_body\n\n        if condition == 'False':\n            return body",
            expect=('R2', 'selection'), quick=True),
